@@ -229,6 +229,7 @@ impl Exec {
                 }
             }
             "end_async" => {
+                verif_harness::simnode::release_all();
                 // after the joins: a tower with threads blocked for ever is abandoned and restarted (what an operator would do)
                 if self.hung {
                     self.hung = false;
@@ -240,7 +241,11 @@ impl Exec {
                 }
             }
             "rpc_up" => {
-                self.rig.node.lock().unwrap().rpc_up = op["up"].as_bool().unwrap();
+                let up = op["up"].as_bool().unwrap();
+                self.rig.node.lock().unwrap().rpc_up = up;
+                if up {
+                    verif_harness::simnode::hold_inflight();
+                }
             }
             "probe" => {
                 self.rig.probe();
@@ -360,7 +365,11 @@ impl Exec {
                 self.rig.node.lock().unwrap().mempool.retain(|t| t.compute_txid() != id);
             }
             "node" => {
-                self.rig.node.lock().unwrap().up = op["up"].as_bool().unwrap();
+                let up = op["up"].as_bool().unwrap();
+                self.rig.node.lock().unwrap().up = up;
+                if up {
+                    verif_harness::simnode::hold_inflight();
+                }
             }
             "fault" => {
                 let mut node = self.rig.node.lock().unwrap();
